@@ -301,13 +301,26 @@ def _history_case(args):
     pairs = list(itertools.permutations(range(len(fam)), 2))
     pairs += [(a, "off") for a in range(len(fam))]
 
-    def calls(ds):
+    def calls(ds, kws=None):
+        """kws: one keyword dictionary per KDE type that the caller keeps
+        and passes again in later calls (it must come back unchanged)."""
         res = {}
         h, v = statistics.get_statistics(ds, features=["area_um", "deform"])
         res["stats"] = tuple(v)
         for kt in ("histogram", "gauss", "multivariate"):
             res[f"scatter-{kt}"] = call(ds.get_kde_scatter, kde_type=kt)
             res[f"contour-{kt}"] = call(ds.get_kde_contour, kde_type=kt)
+            if kws is not None:
+                kw = kws.setdefault(kt, {})
+                res[f"scatter-{kt}-kw"] = call(
+                    ds.get_kde_scatter, kde_type=kt, kde_kwargs=kw)
+                res[f"contour-{kt}-kw"] = call(
+                    ds.get_kde_contour, kde_type=kt, kde_kwargs=kw)
+                res[f"kwargs-{kt}"] = tuple(sorted(kw))
+            else:
+                res[f"scatter-{kt}-kw"] = res[f"scatter-{kt}"]
+                res[f"contour-{kt}-kw"] = res[f"contour-{kt}"]
+                res[f"kwargs-{kt}"] = ()
         res["contour-log"] = call(ds.get_kde_contour, xscale="log",
                                   yscale="log")
         res["contour-acc"] = call(ds.get_kde_contour, xacc=7.0, yacc=0.01)
@@ -318,7 +331,8 @@ def _history_case(args):
         ds = _new(x, y)
         ds.filter.manual[:] = fam[a]
         ds.apply_filter()
-        calls(ds)
+        kws = {}
+        calls(ds, kws)
         if b == "off":
             ds.config["filtering"]["enable filters"] = False
             sel = np.arange(n)
@@ -326,12 +340,14 @@ def _history_case(args):
             ds.filter.manual[:] = fam[b]
             sel = np.flatnonzero(fam[b])
         ds.apply_filter()
-        got = calls(ds)
+        got = calls(ds, kws)
         ref = calls(_new(x[sel], y[sel]))
         for k in got:
             if k == "stats":
                 # Events / %-gated refer to the filter, compare the rest
                 ok = all(eq(p, q) for p, q in zip(got[k][2:], ref[k][2:]))
+            elif k.startswith("kwargs"):
+                ok = got[k] == ref[k]       # the caller's dict stays empty
             else:
                 ok = eq(got[k], ref[k])
             if not ok:
